@@ -480,7 +480,7 @@ func realMain() {
 				if gclass(v) == "hang-with-ttyin" {
 					key = "hang-with-ttyin"
 				}
-				r.Violation(key, fmt.Sprintf("%s: %s (%s)", g, v, gclass(v)), kase{Kind: "grid", Grid: &gg})
+				r.ViolationV(kit.V{Key: key, What: fmt.Sprintf("%s: %s (%s)", g, v, gclass(v)), Case: kase{Kind: "grid", Grid: &gg}, Timing: true})
 			}
 			lines = append(lines, g.String())
 		}()
